@@ -1,12 +1,12 @@
 package main
 
 import (
-	"math/rand"
 	"bytes"
 	"encoding/binary"
 	"encoding/hex"
 	"encoding/json"
 	"fmt"
+	"math/rand"
 	"os"
 	"path/filepath"
 	"sort"
@@ -441,7 +441,15 @@ func checkBoxBytes(c *Ctx, which string, bs []byte, origin string) boxVerdict {
 		if eW.panic != "" {
 			fail("C01", "encode-panic", "a decoded box panics on Encode", eW.panic, "")
 		} else {
-			fail("C01", "encode-error", "a decoded box fails to encode", fmt.Sprint(eW.err), "")
+			if typ != "trun" && strings.Contains(strings.ReplaceAll(strings.ToLower(fmt.Sprint(eW.err)), " ", ""), "offset") && strings.Contains(fmt.Sprint(eW.err), "trun") {
+				// the refusal comes from a trun nested in this box (known finding C01-trun-encode-error: data-offset-present
+				// with data_offset 0): the fingerprint names the box at fault, not the container it was met in
+				if which == "C01" {
+					c.Fail("C01-trun-encode-error", "a decoded box fails to encode (a trun inside a "+typ+" box) ["+origin+"]", req, clip(fmt.Sprint(eW.err)), "")
+				}
+			} else {
+				fail("C01", "encode-error", "a decoded box fails to encode", fmt.Sprint(eW.err), "")
+			}
 		}
 		return boxVerdict{true, typ}
 	}
@@ -500,7 +508,7 @@ func checkBoxBytes(c *Ctx, which string, bs []byte, origin string) boxVerdict {
 		}
 		// normalisation trak-adjacent: the children of a moov box may come out in another order as long as the trak
 		// boxes keep their relative order and so do all the other children (nothing lost, nothing altered)
-		if typ == "moov" && len(out) == len(bs) && moovOrderNormalised(ma, mb) {
+		if len(out) == len(bs) && bytes.Contains(bs, []byte("moov")) && bytes.Equal(canonMoovOrder(ma, 0), canonMoovOrder(mb, 0)) {
 			return true, -1
 		}
 		for i := 0; i < len(ma) && i < len(mb); i++ {
@@ -752,4 +760,49 @@ func moovOrderNormalised(a, b []byte) bool {
 		}
 	}
 	return true
+}
+
+// canonMoovOrder rewrites every moov box (at any depth the independent walker reaches) so that its non-trak children
+// come first in their order and its trak children after them in their order: two byte strings that differ only by the
+// committed trak-adjacent normalisation have the same canonical form
+func canonMoovOrder(box []byte, depth int) []byte {
+	if len(box) < 8 || depth > 24 || binary.BigEndian.Uint32(box) != uint32(len(box)) {
+		return box
+	}
+	typ := string(box[4:8])
+	skip, ok := containerSkip(typ, box[8:])
+	if !ok || 8+skip > len(box) {
+		return box
+	}
+	var kids [][]byte
+	p := box[8+skip:]
+	for len(p) > 0 {
+		if len(p) < 8 {
+			return box
+		}
+		sz := int(binary.BigEndian.Uint32(p))
+		if sz < 8 || sz > len(p) {
+			return box
+		}
+		kids = append(kids, canonMoovOrder(p[:sz], depth+1))
+		p = p[sz:]
+	}
+	out := append([]byte{}, box[:8+skip]...)
+	if typ == "moov" {
+		for _, k := range kids {
+			if string(k[4:8]) != "trak" {
+				out = append(out, k...)
+			}
+		}
+		for _, k := range kids {
+			if string(k[4:8]) == "trak" {
+				out = append(out, k...)
+			}
+		}
+	} else {
+		for _, k := range kids {
+			out = append(out, k...)
+		}
+	}
+	return out
 }
